@@ -193,6 +193,52 @@ def run(ctx):
                       % ["-" if p else "+" for p in pattern], where,
                       sample={"pattern": ["-" if p else "+" for p in pattern], "U[0,0]": N.short(fu[0]), "B[0,1]": N.short(fb[1])}
                       if pattern == (True, False, True) else None)
+            # the same sign pattern with the checks switched on (the default): a matrix with det(UB) > 0 must not be rejected, so
+            # whatever is handed to the rotation check has to have the determinant of the U that is returned (= +1):
+            # the same columns up to an even number of sign changes
+            if ok:
+                glog = []
+
+                def ipol(name_, a_, kw_, node_, glog=glog):
+                    if name_.startswith("xfab.checks."):
+                        glog.append((name_.rsplit(".", 1)[1], [x_.copy() if isinstance(x_, Arr) else x_ for x_ in a_]))
+                        return None
+                    return NotImplemented
+
+                def bpol_on(test, ev_, env_, bpol=bpol):
+                    if isinstance(test, ast.Attribute):
+                        return None
+                    return bpol(test, ev_, env_)
+                ev2 = Evaluator(mod, inline=set(), branch_policy=bpol_on, sign_policy=signs, import_policy=ipol)
+                ev2.import_values = {"xfab.CHECKS.activated": True}
+                ev2.import_values_at_definition = {"xfab.CHECKS.activated": True}
+                orig2 = ev2._np_call
+
+                def np_hook2(name_, args_, kwargs_, node_, orig2=orig2):
+                    if name_ == "linalg.qr":
+                        return (materialise(Q), materialise(R))
+                    return orig2(name_, args_, kwargs_, node_)
+                ev2._np_call = np_hook2
+                ev2.call_function("ub_to_u_b", [UB])
+                for cname, cargs in glog:
+                    if "rotation" not in cname or not cargs:
+                        continue
+                    (fa, _s3) = flat(cargs[0])
+                    if len(fa) != 9:
+                        raise AnalysisError("%s.ub_to_u_b: the value handed to checks.%s is not a 3x3 matrix" % (short, cname))
+                    parity = 1
+                    for j in range(3):
+                        if all(fa[3 * i + j].equals(fu[3 * i + j]) for i in range(3)):
+                            continue
+                        if all(fa[3 * i + j].equals(-fu[3 * i + j]) for i in range(3)):
+                            parity = -parity
+                            continue
+                        raise AnalysisError("%s.ub_to_u_b: the matrix handed to checks.%s is not the returned U up to column signs; "
+                                            "whether it is a proper rotation cannot be decided" % (short, cname))
+                    ctx.check(parity == 1, key + ".guard",
+                              "for diag(R) signs %s the matrix handed to checks.%s differs from the U that is returned by an odd number of column "
+                              "signs: its determinant is -1 for every UB with positive determinant, a valid input is rejected (and a mirrored "
+                              "one accepted)" % (["-" if p else "+" for p in pattern], cname), where)
         # special arms (fast paths): whatever they return must still have a provably positive diagonal in B
         for st_ in special:
             def spol(test, ev, env, st_=st_):
